@@ -742,5 +742,6 @@ func TestRun(t *testing.T) {
 		failedRegistration(rec, "tcp", "deadline-before-answer")
 	}
 	rec.Assume("runs are far shorter than 128 s (checked: a run above 100 s is inconclusive), so on live connections only the serial-number clauses decide; the 128 s clause is decided on the exported predicate")
+	blockwiseRestart(rec, vr.Scale(6, 200))
 	rec.Assume("a notification without an Observe option is always delivered (the library's documented behaviour for non-observe responses) and does not move the last sequence number")
 }
